@@ -1,6 +1,6 @@
 """which stages decide which property, and what each claim says"""
 
-FIX_COMMITS = ["88f9d1c"]
+FIX_COMMITS = ["88f9d1c", "d6a9f9a"]
 
 TB_VERUS = [
     "Verus 0.2026.09.13 + Z3 (verifier, encoding of Rust semantics, vstd specs of Vec/String/str/slice iterators/Option/arrays)",
@@ -13,7 +13,7 @@ TB_CODEC_ENC = [
     "Box<dyn MappingsEncoder> dispatch in create_encoder and the for_each driver loops of encode_mappings/get_map are outside the proof (rule D1 drops the trait)",
 ]
 
-from vx.kstages import k1_replace_inv  # noqa: E402
+from vx.kstages import k1_replace_inv, k2_eq_hash  # noqa: E402
 from vx.witness import codec_witness, mixed_witness, replace_witness  # noqa: E402
 
 PLAN = {
@@ -95,5 +95,22 @@ PLAN = {
         "assumptions": ["inner.source() is a function of the inner object (trait-level spec view `text()`)", "inner text < 4 GiB", "sum of content lengths fits usize (capacity hint dropped by D3)"],
         "not_covered": ["rope() (Rope code)", "map()/stream_chunks of ReplaceSource", "n > 3 replacements for the itertools sort (bounded Kani stage)"],
         "design_ref": "DESIGN.md §4/C05",
+    },
+    "C14": {
+        "level": "model_checking",
+        "verus_units": [],
+        "extra_stages": [k2_eq_hash],
+        "kani": True,
+        "engine": "kani-scratch",
+        "technique": "per-type contract harnesses (Kani/CBMC) on the real PartialEq/Hash/Clone impls: eq <=> abstract value equal, hash and clone functions of the abstract value, in every reachable cache state",
+        "claim": "Partial, bounded: for RawSource, RawStringSource, RawBufferSource, OriginalSource the real ==, Hash and Clone are functions of the abstract value "
+                 "(caches dropped) under every interleaving of observer calls on either operand; ReplaceSource == and clone ignore the lazy-sort cache in every state satisfying the K1 invariant. "
+                 "Data from a fixed catalogue (symbolic strings are intractable for CBMC here). ReplaceSource::hash, ConcatSource, CachedSource, SourceMapSource and the dyn Source layer are not covered.",
+        "note": "Bounded stand-in, not a proof: exhaustive in cache histories, sampled in data. Kani/CBMC trusted; harnesses are child modules of the real files in a scratch copy.",
+        "trusted_base": ["Kani 0.68 + CBMC 6.11 (bit-precise symbolic execution of the compiled MIR of the real impls)", "the abstract-value functions written in the harnesses (kani/eq_hash_*.rs)"],
+        "assumptions": ["data catalogue is representative (ASCII / multi-byte / invalid UTF-8; equal and unequal pairs)"],
+        "not_covered": ["ReplaceSource::hash (CBMC out of memory at 14 GB even for n = 2)", "ConcatSource (no verdict in 10 min)", "CachedSource (Kani compiler ICE on DashMap)",
+                        "SourceMapSource", "Box<dyn Source> / dyn_eq / dyn_hash layer", "observers other than eq/hash/clone"],
+        "design_ref": "DESIGN.md §4/C14",
     },
 }
